@@ -199,3 +199,14 @@ def mc(chk: Check, invs, quick_maxlen=3, thorough_maxlen=4):
         if res.error:
             chk.violation(f"design:{res.error}", f"TLC counterexample in MC_GooseEngine (deep): {res.error}",
                           {"kind": "tlc_counterexample", "module": "MC_GooseEngine.tla", "cfg": cfg, "trace": res.cex})
+
+
+def replay(chk: Check, data):
+    """Re-run the recorded scenario on the current tree and re-validate."""
+    from harness import engine_driver
+
+    sc = dict(data["replay"]["trace"]["hdr"]["scenario"])
+    sc["ops"] = [tuple(o) for o in sc["ops"]]
+    sc["needs_hist"] = tuple(sc["needs_hist"])
+    traces = engine_driver.run(**sc)
+    validate(chk, traces, "replay")
